@@ -436,6 +436,13 @@ def m3(ctx):
                                 ok, why = False, 'the early-recomputation thread does not store its result under the ' \
                                                  'key: the refresh is computed and thrown away, so every caller ' \
                                                  'recomputes at expiry (the stampede the recipe exists to prevent)'
+                            # only the caller that won the marker (cache.add(...) returned true) refreshes
+                            won = any(x.kind == 'TEST' and x.seq < e.seq and x.d['truth'] and x.d['val'].k == 'ret'
+                                      and any(q.endswith('.add') for q in x.d['val'].a[1]) for x in p.trace)
+                            if not won:
+                                ok, why = False, 'the refresh thread is started without having won the marker key ' \
+                                                 '(cache.add(...) true): every caller that finds the marker already ' \
+                                                 'set starts another recomputation - the stampede the recipe prevents'
                             started = any(x.kind == 'MCALL' and x.d['name'] == 'start' for x in p.trace[e.seq:])
                             if not started:
                                 ok, why = False, 'the early-recomputation thread is created but never started'
